@@ -27,6 +27,54 @@ type IntroCase struct {
 	Append []string `json:"append,omitempty"`
 	// Omit: types left out of NewSchema and never appended themselves: they arrive through an appended type.
 	Omit []string `json:"omit,omitempty"`
+	// OnlyRoots: no types are supplied explicitly: the schema is what the roots (and the
+	// directives) reach.
+	OnlyRoots bool `json:"onlyRoots,omitempty"`
+}
+
+// reachableModel restricts a schema model to the types reachable from the roots (the statement
+// does not count the argument types of custom directives, and the library does not add them): through fields and their arguments (of objects and of
+// interfaces), declared interfaces, union members and input fields. Implementers of an
+// interface are not reached through the interface.
+func reachableModel(s *model.Schema) *model.Schema {
+	seen := map[string]bool{}
+	var visit func(name string)
+	visit = func(name string) {
+		if name == "" || seen[name] {
+			return
+		}
+		td := s.Type(name)
+		if td == nil {
+			return // built-in scalar
+		}
+		seen[name] = true
+		for _, f := range td.Fields {
+			visit(f.Type.Name)
+			for _, a := range f.Args {
+				visit(a.Type.Name)
+			}
+		}
+		for _, f := range td.InputFields {
+			visit(f.Type.Name)
+		}
+		for _, i := range td.Interfaces {
+			visit(i)
+		}
+		for _, m := range td.Members {
+			visit(m)
+		}
+	}
+	visit(s.Query)
+	visit(s.Mutation)
+	visit(s.Subscription)
+	out := *s
+	out.Types = nil
+	for _, td := range s.Types {
+		if seen[td.Name] {
+			out.Types = append(out.Types, td)
+		}
+	}
+	return &out
 }
 
 const introQuery = `query Intro { __schema { queryType { name } mutationType { name } subscriptionType { name }
@@ -115,6 +163,9 @@ var introspectionTypeNames = []string{"__Schema", "__Type", "__Field", "__InputV
 
 // checkInputValues compares reported arguments / input fields with the model, incl. the
 // round trip of every default value through parsing and input coercion.
+// c10TypeLookup: the unrestricted model of the running case, for resolving type names in defaults.
+var c10TypeLookup *model.Schema
+
 func checkInputValues(s *model.Schema, where string, got []jInput, want []*model.ArgDef) string {
 	if len(got) != len(want) {
 		return fmt.Sprintf("%s: %d input values reported, %d configured", where, len(got), len(want))
@@ -154,8 +205,12 @@ func checkInputValues(s *model.Schema, where string, got []jInput, want []*model
 			return fmt.Sprintf("%s.%s: defaultValue %q is not a GraphQL literal (%s); configured %s", where, g.Name, *g.DefaultValue, perr.Msg, model.ValString(w.Default))
 		}
 		lit := nodeToVal(node)
-		back, ok := ref.LiteralValue(s, w.Type, lit, nil)
-		wantGo := ref.DefaultGo(s, w.Type, w.Default)
+		lookup := s
+		if c10TypeLookup != nil {
+			lookup = c10TypeLookup // custom directives may take arguments of types the schema itself does not reach
+		}
+		back, ok := ref.LiteralValue(lookup, w.Type, lit, nil)
+		wantGo := ref.DefaultGo(lookup, w.Type, w.Default)
 		if !ok || model.Canon(back) != model.Canon(wantGo) {
 			return fmt.Sprintf("%s.%s: defaultValue %q, parsed and coerced as %s, gives %s; the configured default is %s", where, g.Name, *g.DefaultValue, w.Type, model.Canon(back), model.Canon(wantGo))
 		}
@@ -237,11 +292,6 @@ func c10Compare(s *model.Schema, js *jSchema) string {
 		}
 		for _, r := range refs {
 			want[r.Name] = true
-		}
-	}
-	for _, d := range s.Directives {
-		for _, a := range d.Args {
-			want[a.Type.Name] = true
 		}
 	}
 	got := map[string]*jType{}
@@ -383,6 +433,16 @@ func c10Oracle(c *IntroCase) (msg string) {
 		}
 	}()
 	full := c.Schema
+	c10TypeLookup = c.Schema
+	if c.OnlyRoots {
+		full = reachableModel(c.Schema)
+		b, err := build.New(c.Schema, &ref.World{S: c.Schema}, build.Options{OmitExtra: true})
+		if err != nil {
+			stats.R.Exclude("roots_only_schema_invalid")
+			return "" // what the roots reach is not a valid schema on its own (an abstract type nobody can resolve)
+		}
+		return c10Introspect(b, full)
+	}
 	initial := *c.Schema
 	if len(c.Append) > 0 {
 		initial.Types = nil
@@ -408,6 +468,11 @@ func c10Oracle(c *IntroCase) (msg string) {
 			return fmt.Sprintf("AppendType(%s) failed on a valid type: %v", a, err)
 		}
 	}
+	return c10Introspect(b, full)
+}
+
+// c10Introspect runs the introspection queries against b and compares with the model full.
+func c10Introspect(b *build.Built, full *model.Schema) (msg string) {
 	res := graphql.Do(graphql.Params{Schema: b.Schema, RequestString: introQuery})
 	if len(res.Errors) > 0 {
 		return "introspection query failed: " + res.Errors[0].Message
@@ -481,8 +546,11 @@ func TestC10(t *testing.T) {
 		s := gen.Schema(rt, gen.SchemaOpts{Mutation: gen.Chance(rt, 50, "mutation"), Subscription: gen.Chance(rt, 30, "subscription"),
 			Descriptions: true, Directives: true, MaxWrap: 4, ExtraObjects: true})
 		c := &IntroCase{Schema: s}
+		c.OnlyRoots = gen.Chance(rt, 25, "onlyRoots")
 		// appendable: object types nothing refers to, and the union XU of them
-		drawAppend(rt, s, &c.Append, &c.Omit)
+		if !c.OnlyRoots {
+			drawAppend(rt, s, &c.Append, &c.Omit)
+		}
 		msg := c10Oracle(c)
 		nonScalarDefault, multiImpl := false, false
 		for _, td := range s.Types {
